@@ -1,6 +1,6 @@
 SPECIFICATION Spec
 CONSTANTS
-  CurveP = {1,2,3}
+  CurveP = {1,2,3,4}
   CurveInt = 2
   SurfMode = 1
   RatSurfMaxOrd = 1
